@@ -6,7 +6,7 @@ SB=/tmp/coq_sbuild
 mkdir -p $SB
 rsync -a --exclude 'Gen/' --exclude '*.vo' --exclude '*.glob' --exclude '*.aux' --exclude '.*.d' --exclude '*.vok' --exclude '*.vos' --exclude Makefile --exclude Makefile.conf /verif/coq/ $SB/
 mkdir -p $SB/Gen
-for f in Upper.v LexTable.v Schema.v Static.v Flow.v; do git -C /verif show HEAD:coq/Gen/$f > $SB/Gen/$f.new; cmp -s $SB/Gen/$f.new $SB/Gen/$f || mv $SB/Gen/$f.new $SB/Gen/$f; rm -f $SB/Gen/$f.new; done
+for f in Upper.v LexTable.v Schema.v Static.v Flow.v Frame.v; do git -C /verif show HEAD:coq/Gen/$f > $SB/Gen/$f.new; cmp -s $SB/Gen/$f.new $SB/Gen/$f || mv $SB/Gen/$f.new $SB/Gen/$f; rm -f $SB/Gen/$f.new; done
 cd $SB
 coq_makefile -f _CoqProject -o Makefile >/dev/null 2>&1
 timeout 1500 make -j12 "$@" 2>&1 | grep -v "^COQDEP\|^COQC\|Warning\|^make\[" | tail -40
